@@ -231,3 +231,216 @@
     body_harness!(vk_c06_parse_body_n249, 249, 281);
     // @harness ids=C06,C01 tier=quick kind=proof stubs=1 units=link::parser::Parser::parse_body,link::parser::FramePayload::push timeout=900 note="N=250"
     body_harness!(vk_c06_parse_body_n250, 250, 282);
+
+    // ---------------------------------------------------------------- dispatcher: parse_impl / parse
+
+    fn header_ok_at(b: &[u8], j: usize) -> bool {
+        // is there a CRC-valid link header starting at offset j (needs 10 bytes)?
+        b[j] == 0x05 && b[j + 1] == 0x64 && b[j + 2] >= 5
+            && ((b[j + 8] as u16) | ((b[j + 9] as u16) << 8)) == crcv::hcrc_at(j + 2)
+    }
+
+    // Contract stub for Parser::parse_body (its contract is proved on the real body by the vk_c06_parse_body_* harnesses):
+    // fewer than T bytes -> Ok(None), nothing changes; otherwise exactly T bytes are consumed and either an error is
+    // returned, or the frame is delivered (state FindSync1, payload replaced). BODY_DELIVERED counts deliveries.
+    pub(crate) static mut BODY_DELIVERED: usize = 0;
+    pub(crate) static mut BODY_LAST_T: usize = 0;
+    impl Parser {
+        pub(crate) fn stub_parse_body(
+            &mut self,
+            trailer_length: usize,
+            cursor: &mut ReadCursor,
+            payload: &mut FramePayload,
+        ) -> Result<Option<()>, ParseError> {
+            if cursor.remaining() < trailer_length {
+                return Ok(None);
+            }
+            let _ = cursor.read_bytes(trailer_length);
+            unsafe { BODY_LAST_T = trailer_length; }
+            // T == 0 (header-only frame) has no block to fail: proved by vk_c06_parse_body_n0
+            if trailer_length != 0 && kani::any() {
+                return Err(ParseError::BadFrame(FrameError::BadBodyCrc));
+            }
+            payload.length = kani::any();
+            kani::assume(payload.length <= 250);
+            self.state = ParseState::FindSync1;
+            unsafe { BODY_DELIVERED += 1; }
+            Ok(Some(()))
+        }
+    }
+
+    // @harness ids=C06,C01 tier=quick kind=proof stubs=1 units=link::parser::Parser::parse_impl,link::parser::Parser::parse timeout=600 note="Close mode, any 10 bytes from FindSync1 (parse_body by contract): a frame is delivered only through parse_body, iff start bytes, length and header CRC are right; the delivered header is the transmitted one; len>5 waits in ReadBody with trailer_len; anything else is an error"
+    #[kani::proof]
+    #[kani::unwind(7)]
+    #[kani::stub(Parser::parse_body, Parser::stub_parse_body)]
+    #[kani::stub(crate::link::crc::calc_crc_with_0564, crate::link::crc::verif_kani_c06_crc::stub_calc_crc_with_0564)]
+    fn vk_c06_parse_impl_ten_bytes() {
+        let b: [u8; 10] = kani::any();
+        crcv::hcrc_init(b.as_ptr());
+        let mut p = Parser::new(LinkErrorMode::Close);
+        let mut payload = FramePayload::new();
+        let mut c = ReadCursor::new(&b);
+        unsafe { BODY_DELIVERED = 0; }
+        let r = p.parse(&mut c, &mut payload);
+        let good = header_ok_at(&b, 0);
+        match r {
+            Ok(Some(h)) => {
+                assert!(good && b[2] == 5);
+                assert!(unsafe { BODY_DELIVERED == 1 && BODY_LAST_T == 0 });
+                assert!(c.remaining() == 0);
+                assert!(h.control.to_u8() == b[3]);
+                assert!(h.destination.value() == (b[4] as u16) | ((b[5] as u16) << 8));
+                assert!(h.source.value() == (b[6] as u16) | ((b[7] as u16) << 8));
+                assert!(matches!(p.state, ParseState::FindSync1));
+                kani::cover!(true);
+            }
+            Ok(None) => {
+                assert!(good && b[2] > 5);
+                assert!(c.remaining() == 0 && unsafe { BODY_DELIVERED == 0 });
+                assert!(matches!(p.state, ParseState::ReadBody(h, t) if t == spec::trailer_len((b[2] - 5) as usize) && h.control.to_u8() == b[3]));
+                kani::cover!(true);
+            }
+            Err(_) => {
+                assert!(!good);
+                assert!(unsafe { BODY_DELIVERED == 0 });
+                kani::cover!(b[0] == 0x05 && b[1] == 0x64 && !good);
+            }
+        }
+    }
+
+    // @harness ids=C06,C01 tier=quick kind=proof stubs=1 units=link::parser::Parser::parse_impl timeout=600 note="ReadBody arm: parse_body is called with the state's trailer length and the header stored by parse_header is the one delivered"
+    #[kani::proof]
+    #[kani::unwind(7)]
+    #[kani::stub(Parser::parse_body, Parser::stub_parse_body)]
+    #[kani::stub(crate::link::crc::calc_crc_with_0564, crate::link::crc::verif_kani_c06_crc::stub_calc_crc_with_0564)]
+    fn vk_c06_parse_impl_body_arm() {
+        let b: [u8; 24] = kani::any();
+        crcv::hcrc_init(b.as_ptr());
+        let mut p = Parser::new(any_mode());
+        let hdr = Header::new(ControlField::from(kani::any()), AnyAddress::from(kani::any()), AnyAddress::from(kani::any()));
+        let d: u8 = kani::any();
+        kani::assume(d >= 1 && d <= 250);
+        let t = spec::trailer_len(d as usize);
+        p.state = ParseState::ReadBody(hdr, t);
+        let mut payload = FramePayload::new();
+        let mut c = ReadCursor::new(&b);
+        unsafe { BODY_DELIVERED = 0; BODY_LAST_T = 0; }
+        let r = p.parse_impl(&mut c, &mut payload);
+        match r {
+            Ok(Some(h)) => {
+                assert!(t <= 24 && h == hdr && c.remaining() == 24 - t);
+                assert!(unsafe { BODY_DELIVERED == 1 && BODY_LAST_T == t });
+                kani::cover!(true);
+            }
+            Ok(None) => {
+                assert!(t > 24 && c.remaining() == 24 && unsafe { BODY_DELIVERED == 0 });
+                assert!(matches!(p.state, ParseState::ReadBody(h, t2) if t2 == t && h == hdr));
+                kani::cover!(true);
+            }
+            Err(_) => {
+                assert!(t <= 24 && unsafe { BODY_DELIVERED == 0 });
+                kani::cover!(true);
+            }
+        }
+    }
+
+    // Contract stub for Parser::parse_impl used to verify the discard loop of Parser::parse by itself.
+    // Contract (each clause is a postcondition proved on the real parse_impl/parse_sync1 above, or weaker):
+    // consumes k <= remaining bytes; returns any of Ok(Some)/Ok(None)/Err; on an empty cursor in FindSync1 returns
+    // Ok(None). Ghost log: cursor position and parser state at entry of every attempt.
+    pub(crate) static mut IMPL_LOG: [(usize, u8); 12] = [(0, 0); 12];
+    pub(crate) static mut IMPL_CALLS: usize = 0;
+    fn state_tag(s: &ParseState) -> u8 {
+        match s { ParseState::FindSync1 => 0, ParseState::FindSync2 => 1, ParseState::ReadHeader => 2, ParseState::ReadBody(_, _) => 3 }
+    }
+    impl Parser {
+        pub(crate) fn stub_parse_impl(&mut self, cursor: &mut ReadCursor, payload: &mut FramePayload) -> Result<Option<Header>, ParseError> {
+            unsafe {
+                if IMPL_CALLS < 12 { IMPL_LOG[IMPL_CALLS] = (cursor.position(), state_tag(&self.state)); }
+                IMPL_CALLS += 1;
+            }
+            if cursor.is_empty() && matches!(self.state, ParseState::FindSync1) {
+                return Ok(None);
+            }
+            let k: usize = kani::any();
+            kani::assume(k <= cursor.remaining());
+            let _ = cursor.read_bytes(k);
+            let st: u8 = kani::any();
+            self.state = match st { 0 => ParseState::FindSync1, 1 => ParseState::FindSync2, _ => ParseState::ReadHeader };
+            match kani::any::<u8>() {
+                0 => Ok(None),
+                1 => Ok(Some(Header::new(ControlField::from(kani::any()), AnyAddress::from(kani::any()), AnyAddress::from(kani::any())))),
+                _ => Err(ParseError::BadFrame(FrameError::BadHeaderCrc)),
+            }
+        }
+    }
+
+    // @harness ids=C06,C01 tier=quick kind=proof units=link::parser::Parser::parse_impl timeout=300 stubs=1 note="empty cursor: FindSync1/FindSync2/ReadHeader return Ok(None) without change (clause used by the parse_impl contract stub)"
+    #[kani::proof]
+    #[kani::unwind(3)]
+    #[kani::stub(Parser::parse_body, Parser::stub_parse_body)]
+    fn vk_c06_parse_impl_empty() {
+        let mut p = Parser::new(any_mode());
+        let st: u8 = kani::any();
+        p.state = match st { 0 => ParseState::FindSync1, 1 => ParseState::FindSync2, _ => ParseState::ReadHeader };
+        let mut payload = FramePayload::new();
+        let b: [u8; 0] = [];
+        let mut c = ReadCursor::new(&b);
+        let r = p.parse_impl(&mut c, &mut payload);
+        assert!(matches!(r, Ok(None)));
+        assert!(state_tag(&p.state) == st.min(2));
+        kani::cover!(st == 0);
+    }
+
+    // @harness ids=C06,C01 tier=quick kind=bounded stubs=1 bound="cursor of 4 bytes (loop body is length-independent; see DESIGN L-C06b)" units=link::parser::Parser::parse timeout=600 note="discard loop contract: the result is the first non-error attempt; after a failed attempt that began in FindSync1 exactly one byte is skipped; after a failed attempt that RESUMED a partial frame (state carried from an earlier read) no unexamined byte is skipped: scanning restarts at the first byte of this read; every retry starts in FindSync1; never an error; terminates"
+    #[kani::proof]
+    #[kani::unwind(8)]
+    #[kani::stub(Parser::parse_impl, Parser::stub_parse_impl)]
+    fn vk_c06_parse_discard_loop() {
+        let b: [u8; 4] = kani::any();
+        let mut p = Parser::new(LinkErrorMode::Discard);
+        let st: u8 = kani::any();
+        p.state = match st { 0 => ParseState::FindSync1, 1 => ParseState::FindSync2, _ => ParseState::ReadHeader };
+        let mut payload = FramePayload::new();
+        let mut c = ReadCursor::new(&b);
+        unsafe { IMPL_CALLS = 0; }
+        let r = p.parse(&mut c, &mut payload);
+        assert!(r.is_ok());
+        let calls = unsafe { IMPL_CALLS };
+        assert!(calls >= 1 && calls <= 6);
+        assert!(unsafe { IMPL_LOG[0].0 == 0 && IMPL_LOG[0].1 == st.min(2) });
+        let mut i = 1;
+        while i < calls {
+            let (pos, tag) = unsafe { IMPL_LOG[i] };
+            let (ppos, ptag) = unsafe { IMPL_LOG[i - 1] };
+            assert!(tag == 0);
+            if ptag == 0 {
+                // failed attempt started at ppos as a fresh frame: skip exactly that byte (or stay at the end)
+                assert!(pos == if ppos < 4 { ppos + 1 } else { 4 });
+            } else {
+                // failed attempt resumed a frame begun in an earlier read: its first byte is already gone,
+                // byte `ppos` of this read has never been examined as a frame start and must not be skipped
+                assert!(pos == ppos);
+            }
+            i += 1;
+        }
+        kani::cover!(calls == 5);
+        kani::cover!(calls == 1);
+    }
+
+    // @harness ids=C06,C01 tier=quick kind=proof stubs=1 units=link::parser::Parser::parse timeout=300 note="Close mode: exactly one attempt, its result returned unchanged (errors end the session)"
+    #[kani::proof]
+    #[kani::unwind(3)]
+    #[kani::stub(Parser::parse_impl, Parser::stub_parse_impl)]
+    fn vk_c06_parse_close_mode() {
+        let b: [u8; 4] = kani::any();
+        let mut p = Parser::new(LinkErrorMode::Close);
+        let mut payload = FramePayload::new();
+        let mut c = ReadCursor::new(&b);
+        unsafe { IMPL_CALLS = 0; }
+        let r = p.parse(&mut c, &mut payload);
+        assert!(unsafe { IMPL_CALLS } == 1);
+        kani::cover!(r.is_err());
+        kani::cover!(matches!(r, Ok(Some(_))));
+    }
+
